@@ -129,6 +129,10 @@ def run_case(case):
         xu = np.array(S.LATTICE[k][:n])
         pts.append(xu)
         pts.append(np.array(S.project(xu, spec["var_lb"], spec["var_ub"])))
+    if case.get("nzpat") and n == 2:
+        # points at which single derivative entries vanish, so that the stored pattern MOVES while its size stays the same
+        for q in ([0.0, 1.0], [1.0, -0.5], [-0.5, 1.0], [1.0, -1.0], [0.0, 1.0]):
+            pts.append(np.array(q))
     nev = 0
     for xu in pts:
         # transform_sol / restore_sol
